@@ -74,11 +74,11 @@ def one_fa(acc, kind, spec, N, ns, variant):
     check_fa(acc, kind, tup(spec), N, ns, tuple(variant))
 
 
-def check_re(acc, spec, N, ns):
+def check_re(acc, spec, N, ns, sigma=('a', 'b')):
     import gambatools.regexp_algorithms as ra
     rp = {'fn': 'mc.props.c02:one_re', 'mode': 'plain', 'params': {'spec': spec, 'N': N, 'ns': list(ns)}}
     r = rx.to_lib(spec)
-    sigma = ['a', 'b']
+    sigma = list(sigma)
     acc.states += 1
     accepted = {}
     for w in spaces.words(sigma, N):
@@ -232,10 +232,11 @@ def t_nfa(acc, space, N, ns, shard, nshard, variants):
             check_fa(acc, 'nfa', spec, N, ns, tuple(v))
 
 
-def t_re(acc, m, N, ns, shard, nshard):
-    for idx, spec in rx.trees_up_to(m):
+def t_re(acc, m, N, ns, shard, nshard, digits=False):
+    leaves = ('0', '1', 's1', 'a') if digits else ('0', '1', 'a', 'b')
+    for idx, spec in rx.trees_up_to(m, leaves):
         if idx % nshard == shard:
-            check_re(acc, spec, N, ns)
+            check_re(acc, spec, N, ns, ['1', 'a'] if digits else ['a', 'b'])
 
 
 def t_cfg(acc, space, N, ns, shard, nshard, stride=1, offset=0):
@@ -282,6 +283,7 @@ def plan(tier, seed):
     add('t_nfa', 8, space=['nfa', 3, 1, 3, False], N=N, ns=ns, variants=V[:1])
     add('t_nfa', 2, space=['chain', 5], N=3, ns=[0, 1, 2, 3], variants=V[:1])
     add('t_re', 16, m=6 if q else 7, N=N, ns=ns)
+    add('t_re', 4, m=5, N=N, ns=ns, digits=True)
     add('t_cfg', 32, space='cfg2', N=N, ns=ns, stride=8 if q else 1, offset=seed)
     add('t_cfg', 16, space='cfg2+', N=N, ns=ns, stride=32 if q else 4, offset=seed)
     add('t_cfg', 16, space='cnf3', N=N, ns=ns, stride=4 if q else 1, offset=seed)
